@@ -69,6 +69,9 @@ class Session:
         self.server_next_seq = None
         self.client_next_seq = None
 
+        # decrypted TLS 1.3 handshake bytes not yet consumed as whole messages, per direction (key: isserver)
+        self.handshake_buffer = {True: b"", False: b""}
+
         self.can_decrypt = False
         self.client_hello_seen = False
 
@@ -421,15 +424,19 @@ class Session:
         self.client_hello_seen = False
 
     def handle_decrypted_tls_13_handshake_record(self, plaintext, isserver):
-        index = 0
-        while index < len(plaintext):
-            handshake_type = plaintext[index]
-            length = int.from_bytes(plaintext[index + 1:index + 4], 'big')
+        # handshake messages may be fragmented across records (RFC 8446 5.1): only whole messages are consumed
+        buffer = self.handshake_buffer[isserver] + plaintext
+        self.handshake_buffer[isserver] = buffer
+        while len(buffer) >= 4:
+            length = int.from_bytes(buffer[1:4], 'big')
+            if len(buffer) < 4 + length:
+                break
+            handshake_type = buffer[0]
+            buffer = buffer[4 + length:]
+            self.handshake_buffer[isserver] = buffer
 
             if handshake_type == 20:
                 self.decryptor.update_keys(isserver)
-
-            index += length + 4
 
     def handle_tls_13_application_record(self, record: TlsRecord, isserver):
         try:
